@@ -448,6 +448,14 @@ func (it *Interp) refundValue(chain string, e *mtypes.SendToExternal) *big.Int {
 	return FromExt(d, tot)
 }
 
+// mintable: can the refund be minted at all? (re-minting a 2^255-scale amount next to another one would lift the supply
+// over what an Int holds; such a refund fails on its own and the transfer stays pooled)
+func (it *Interp) mintable(chain string, e *mtypes.SendToExternal) bool {
+	denom := it.denomOfToken(e.Token.TokenId)
+	sum := new(big.Int).Add(it.H.Supply(denom), it.refundValue(chain, e))
+	return sum.BitLen() <= 256
+}
+
 func (c *Refunds) checkRefund(it *Interp, st *StepInfo, ch string, e *mtypes.SendToExternal, balDelta map[string]*big.Int, how string) {
 	val := it.refundValue(ch, e)
 	denom := it.denomOfToken(e.Token.TokenId)
@@ -518,7 +526,7 @@ func (c *Refunds) Step(it *Interp, st *StepInfo) {
 			}
 			return
 		}
-		if !ok && shouldOK {
+		if !ok && shouldOK && it.mintable(ch, e) {
 			it.Fail("C12", "own-cancel-refused", "%s: sender could not cancel its unbatched transfer %d: %v", ch, st.CancelID, st.Res.Err)
 			return
 		}
@@ -604,7 +612,7 @@ func (c *Refunds) Step(it *Interp, st *StepInfo) {
 		for _, e := range st.Post.Chains[ch].Pool {
 			postPool[e.Id] = e
 			// the sweep runs in every EndBlocker: an expired transfer that has something to give back is gone now
-			if it.ExpiredByModel(ch, e) && e.RefundChainId != "" && it.refundValue(ch, e).Sign() > 0 {
+			if it.ExpiredByModel(ch, e) && e.RefundChainId != "" && it.refundValue(ch, e).Sign() > 0 && it.mintable(ch, e) {
 				it.Fail("C12", "expired-not-refunded", "%s: transfer %d created at %d is still unbatched at %d although the timeout %s has passed", ch, e.Id, e.CreatedAt, it.Now, it.timeout())
 				return
 			}
